@@ -20,8 +20,8 @@ import numpy as np
 
 from .. import common as C
 
-HEADER = ("From Coq Require Import List Bool PrimFloat. Import ListNotations.\n"
-          "Require Import NV.C16.Model.\n")
+HEADER = ("From Coq Require Import List Bool PrimFloat ZArith. Import ListNotations.\n"
+          "Require Import NV.C16.Model NV.C16.ModelRing.\n")
 
 
 # --------------------------------------------------------------------------------------------------
@@ -928,6 +928,63 @@ def quiet():
 
 # --------------------------------------------------------------------------------------------------
 
+# --------------------------------------------------------------------------------------------------
+# ring buffers of _InformationStore (round 6): add_new_point / history_length / .b index arithmetic
+# --------------------------------------------------------------------------------------------------
+
+def gen_ring_spec(rng, i):
+    mmax = int(rng.integers(1, 7)) if i % 5 else int(rng.integers(7, 13))
+    k = int(rng.integers(0, 4 * mmax + 3)) if i % 7 else int(rng.choice([0, 1, mmax - 1, mmax, mmax + 1, 2 * mmax]))
+    k = max(k, 0)
+    # distinct non-zero integer payloads: x_j, g_j are partial sums, so s_j = p_j and y_j = q_j exactly
+    ps = rng.permutation(np.arange(1, 4 * k + 5))[:k] * rng.choice([-1, 1], size=k)
+    qs = rng.permutation(np.arange(1, 4 * k + 5))[:k] * rng.choice([-1, 1], size=k)
+    return {"mmax": mmax, "p": [int(v) for v in ps], "q": [int(v) for v in qs],
+            "x0": int(rng.integers(-50, 50)), "g0": int(rng.integers(-50, 50))}
+
+
+def run_ring_case(spec):
+    """Drive the real _InformationStore with 1-pixel integer-valued Fields; return its own read-out."""
+    import nifty.cl as ift
+    from nifty.cl.minimization.descent_minimizers import _InformationStore
+    dom = ift.DomainTuple.make(ift.UnstructuredDomain((1,)))
+    fld = lambda v: ift.Field.from_raw(dom, np.array([float(v)]))
+    x, g = spec["x0"], spec["g0"]
+    st = _InformationStore(spec["mmax"], fld(x), fld(g))
+    for p_, q_ in zip(spec["p"], spec["q"]):
+        x, g = x + p_, g + q_
+        st.add_new_point(fld(x), fld(g))
+    m = int(st.history_length)
+    b = [float(v.asnumpy()[0]) for v in st.b]
+    ok_shape = len(b) == 2 * m + 1 and all(v == int(v) for v in b)
+    return {"spec": spec, "m": m, "S": [int(v) for v in b[:m]] if ok_shape else None,
+            "Y": [int(v) for v in b[m:2 * m]] if ok_shape else None,
+            "g": b[-1] if b else None, "g_want": float(g), "len_b": len(b)}
+
+
+def coq_ring_case(o):
+    pair = lambda a, b: "(%s, %s)" % (C.cz(a), C.cz(b))
+    sp = o["spec"]
+    if o["S"] is None:
+        return "false"
+    return "ring_case %d %s %s %d" % (sp["mmax"], C.clist([pair(a, b) for a, b in zip(sp["p"], sp["q"])]),
+                                      C.clist([pair(a, b) for a, b in zip(o["S"], o["Y"])]), o["m"])
+
+
+def ring_failure(o):
+    """Direct statement on the implementation: .b = last min(k, mmax) s's, the same y's, the last gradient."""
+    sp = o["spec"]
+    k = len(sp["p"])
+    m = min(k, sp["mmax"])
+    if o["m"] != m or o["len_b"] != 2 * m + 1 or o["S"] is None:
+        return "window: history_length/len(b) = %r/%r, expected %d/%d" % (o["m"], o["len_b"], m, 2 * m + 1)
+    if o["S"] != sp["p"][k - m:] or o["Y"] != sp["q"][k - m:]:
+        return "window: _InformationStore.b does not read out the last %d stored pairs, oldest first" % m
+    if o["g"] != o["g_want"]:
+        return "window: last entry of _InformationStore.b is not the latest gradient"
+    return None
+
+
 class C16(C.Check):
     prop = "C16"
     coq_dir = "C16"
@@ -936,7 +993,7 @@ class C16(C.Check):
         "hand-written model coq/C16/Model.v of LineSearch.perform_line_search/_zoom and DescentMinimizer.__call__ (tied by bit-exact correspondence, not by translation)",
         "_cubicmin/_quadmin are oracles of the model: their outputs are recorded from the implementation through a LineSearch subclass",
         "the 1-D recording energy of the harness (start 0, direction +-2^k, so that position/direction is the step length exactly)",
-        "window abstraction of the BFGS models: 'the last min(k, max_history_length) pairs' stands for the ring buffers and the cached Gram entries of _InformationStore (tied by replay of n-D histories that wrap the buffer: delta bit-exact, directions within tolerance; and by the direct oracle against an independent two-loop reference)",
+        "window abstraction of the BFGS direction models: 'the last min(k, max_history_length) pairs' stands for the ring buffers (index arithmetic modelled in coq/C16/ModelRing.v and proved to read out exactly that window, C16_ring_window, tied by ring_case; not composed with the direction theorem) and the cached Gram entries of _InformationStore (tied by replay of n-D histories that wrap the buffer: delta bit-exact, directions within tolerance; and by the direct oracle against an independent two-loop reference)",
     ]
     assumptions = [
         "phi and phi' are deterministic functions of the step length (Energy objects are immutable)",
@@ -947,6 +1004,7 @@ class C16(C.Check):
     def __init__(self):
         self.ls_obs, self.dm_obs, self.bfgs_specs, self.b_obs = [], [], [], []
         self.reuse_specs, self.reuse_obs = [], []
+        self.ring_obs = []
 
     def _cases(self, ctx):
         rng = ctx.rng(16)
@@ -983,10 +1041,21 @@ class C16(C.Check):
         n_pre_reuse = len(checks)
         reuse_runs = [(o, r) for o in self.reuse_obs for r in o["reused"] if r["result"] is not None]
         checks += [coq_dm_case(r) for _, r in reuse_runs]
+        # ring buffers: the model's read-out after the same pushes == the implementation's own .b
+        grng = ctx.rng(1618)
+        ring_specs = [c["spec"] for c in ctx.corpus() if c.get("kind") == "ring"]
+        ring_specs += [gen_ring_spec(grng, i) for i in range(60 if ctx.quick else 600)]
+        self.ring_obs = [run_ring_case(sp) for sp in ring_specs]
+        n_pre_ring = len(checks)
+        checks += [coq_ring_case(o) for o in self.ring_obs]
         bad = C.eval_cases(self.prop, "corr", HEADER, checks)
         nls = len(self.ls_obs)
         for i in bad[:4]:
-            if i >= n_pre_reuse:
+            if i >= n_pre_ring:
+                o = self.ring_obs[i - n_pre_ring]
+                res.add_broken("correspondence", "_InformationStore.add_new_point/history_length/.b vs coq/C16/ModelRing.v",
+                               {"kind": "ring", "spec": o["spec"], "m": o["m"], "S": o["S"], "Y": o["Y"]})
+            elif i >= n_pre_reuse:
                 o, r = reuse_runs[i - n_pre_reuse]
                 res.add_broken("correspondence", "DescentMinimizer.__call__ on a re-used object vs coq/C16/Model.v (initial state)",
                                {"kind": "reuse", "spec": o["spec"], "result": r["result"], "ls": r["ls"], "checks": r["checks"],
@@ -1062,6 +1131,7 @@ class C16(C.Check):
         nontriv |= {C.stable_hash(o["spec"]) for o in self.dm_obs if len(o["ls"]) >= 1}
         nontriv |= {C.stable_hash([r["S"], r["g"]]) for r in self.b_obs if r["m"] >= 1}
         nontriv |= {C.stable_hash(o["spec"]) for o in self.reuse_obs if len(o["reused"]) >= 2}
+        nontriv |= {C.stable_hash(o["spec"]) for o in self.ring_obs if len(o["spec"]["p"]) >= 2}
         stat = {}
         for o in self.dm_obs:
             key = "%s:%s" % (o["spec"]["minimizer"], "none" if o["result"] is None else ST[o["result"][1]])
@@ -1077,7 +1147,10 @@ class C16(C.Check):
                                    "bfgs_calls_with_wrapped_ring_buffer": sum(1 for r in self.b_obs if r["k"] > r["mh"]),
                                    "bfgs_direction_max_rel_deviation_model_vs_impl": worst_dir,
                                    "reused_minimiser_objects": len(self.reuse_obs), "runs_on_reused_objects": sum(len(o["reused"]) for o in self.reuse_obs),
-                                   "reused_bfgs_direction_calls": len(rwin), "reused_direction_max_rel_deviation": worst_reuse},
+                                   "reused_bfgs_direction_calls": len(rwin), "reused_direction_max_rel_deviation": worst_reuse,
+                                   "ring_buffer_cases": len(self.ring_obs),
+                                   "ring_buffer_cases_wrapped": sum(1 for o in self.ring_obs if len(o["spec"]["p"]) > o["spec"]["mmax"]),
+                                   "ring_buffer_cases_partly_filled": sum(1 for o in self.ring_obs if 0 < len(o["spec"]["p"]) < o["spec"]["mmax"])},
             "disagreements": len(bad) + ndir_bad, "exhaustive": False,
         })
         return bad
@@ -1108,6 +1181,12 @@ class C16(C.Check):
             f = reuse_failure(o)
             if f:
                 report("reuse", o["spec"], f, {"fn": o["spec"]["minimizer"] + ".__call__", "class": "re-used object"})
+                break
+        for o in self.ring_obs:
+            n += 1
+            f = ring_failure(o)
+            if f:
+                report("ring", o["spec"], f, {"fn": "_InformationStore.b", "class": "ring buffer window"})
                 break
         for s in self.bfgs_specs:
             n += 1
@@ -1143,6 +1222,8 @@ class C16(C.Check):
             return dm_failure(run_dm_case(i["spec"])) is not None
         if i["kind"] == "reuse":
             return reuse_failure(run_reuse_case(i["spec"])) is not None
+        if i["kind"] == "ring":
+            return ring_failure(run_ring_case(i["spec"])) is not None
         return bfgs_failure(i["spec"]) is not None
 
 
